@@ -49,6 +49,7 @@ type VC struct {
 	globals     map[string]Term
 	lateDecls   []string
 	noDefine    bool
+	mulCache    map[string]mulDef
 	defCache    map[string]Term
 	factCache   map[string]bool
 	ifaces      map[string]types.Type
